@@ -49,7 +49,7 @@ COMPONENTS = {"real": ["parser, generator, graphs, mol_prob, force-field typing,
 
 OPS = ["gen_seeded", "gen_seeded", "gen_seeded", "gen_global", "print", "parse_again", "elements_mutate", "mirror_mutate",
        "mirror_generate", "reaction_graph", "atom_graph", "ensemble_prob", "typing", "perturb_global", "gen_fault", "system_iter",
-       "gen_seeded_sim", "atom_graph_generate", "ensemble_prob_value", "natural_failure", "natural_failure", "system_pass", "system_pass"]
+       "gen_seeded_sim", "atom_graph_generate", "ensemble_prob_value", "natural_failure", "natural_failure", "system_pass", "system_pass", "copy_generate"]
 
 # Operations that fail on their own (no injected fault): whatever error path they take must leave nothing behind that a later
 # operation can see -- in the objects, in the library's modules, or in process-wide settings of numpy / RDKit.
@@ -570,6 +570,18 @@ class _Client:
             if o["seed"] % 2:
                 gen.close()
             return None
+        if op == "copy_generate":
+            # a deep copy taken at this point of the history denotes the same object: it generates the baseline molecule
+            import copy as _copy
+
+            try:
+                cp = _copy.deepcopy(obj)
+            except Exception as exc:
+                self.viol("object_changed", f"copy.deepcopy of an instance of {inp['text']!r} raised {exc!r}")
+                return None
+            self.mutating += 1
+            self.count("copies_generated")
+            return self.compare_generation(o, obj, "numpy", target=cp)
         if op == "system_pass":
             if inp["kind"] != "system":
                 return None
